@@ -1,0 +1,11 @@
+//go:build !verif
+
+package layout
+
+import (
+	bo "github.com/benoitkugler/webrender/html/boxes"
+	"github.com/benoitkugler/webrender/html/tree"
+)
+
+// no-op unless built with the verif tag (see verif_hooks.go)
+func verifPageMade(*layoutContext, int, tree.ResumeStack, int, *bo.PageBox) {}
